@@ -31,32 +31,50 @@ example : applyMiddlewares (resolverBody .returns) [0, 1, 2] [.key "a"]
 
 /-! ## MultiInstrumentation -/
 
+/-- the members of `l` that override the method `h` goes to, as recorded events -/
+def recordedBy (l : List (Nat × List Nat)) (h : Hook) : List REv :=
+  (l.filter (fun x => sees x.2 h)).map (fun x => REv.hook x.1 h)
+
+private theorem recordedBy_append (a b : List (Nat × List Nat)) (h : Hook) :
+    recordedBy (a ++ b) h = recordedBy a h ++ recordedBy b h := by
+  simp [recordedBy, List.filter_append]
+
+private theorem recordedBy_reverse_append (a b : List (Nat × List Nat)) (h : Hook) :
+    recordedBy (a ++ b).reverse h = recordedBy b.reverse h ++ recordedBy a.reverse h := by
+  simp [recordedBy, List.filter_append]
+
 mutual
 private theorem emit_eq : ∀ (t : Instr) (h : Hook),
-    t.emit h = (if h.isStart then t.leaves else t.leaves.reverse).map (fun i => REv.hook i h)
-  | .leaf i, h => by simp [Instr.emit, Instr.leaves]
+    t.emit h = recordedBy (if h.isStart then t.leaves else t.leaves.reverse) h
+  | .leaf i m, h => by
+    cases hs : sees m h <;> simp [Instr.emit, Instr.leaves, recordedBy, hs]
   | .multi cs, h => by
     cases hs : h.isStart
     · simp [Instr.emit, Instr.leaves, hs, emitAllRev_eq cs h hs]
     · simp [Instr.emit, Instr.leaves, hs, emitAll_eq cs h hs]
 private theorem emitAll_eq : ∀ (cs : List Instr) (h : Hook), h.isStart = true →
-    emitAll cs h = (leavesAll cs).map (fun i => REv.hook i h)
-  | [], h, _ => by simp [emitAll, leavesAll]
-  | c :: cs, h, hs => by simp [emitAll, leavesAll, emit_eq c h, emitAll_eq cs h hs, hs]
+    emitAll cs h = recordedBy (leavesAll cs) h
+  | [], h, _ => by simp [emitAll, leavesAll, recordedBy]
+  | c :: cs, h, hs => by simp [emitAll, leavesAll, emit_eq c h, emitAll_eq cs h hs, hs, recordedBy_append]
 private theorem emitAllRev_eq : ∀ (cs : List Instr) (h : Hook), h.isStart = false →
-    emitAllRev cs h = (leavesAll cs).reverse.map (fun i => REv.hook i h)
-  | [], h, _ => by simp [emitAllRev, leavesAll]
-  | c :: cs, h, hs => by simp [emitAllRev, leavesAll, emit_eq c h, emitAllRev_eq cs h hs, hs]
+    emitAllRev cs h = recordedBy (leavesAll cs).reverse h
+  | [], h, _ => by simp [emitAllRev, leavesAll, recordedBy]
+  | c :: cs, h, hs => by
+    simp [emitAllRev, leavesAll, emit_eq c h, emitAllRev_eq cs h hs, hs, recordedBy_append]
 end
 
-/-- Combined instrumentations, nested to any depth: a start hook reaches the recording
-    instrumentations in order, an end hook reaches them in exactly the reverse order, each once. -/
+/-- Combined instrumentations, nested to any depth, members overriding ANY subset of the ten
+    methods: a start hook reaches, in order, exactly the recording members that override it; an
+    end hook reaches, in exactly the reverse order, exactly the members that override it — each
+    once, independently of which OTHER methods a member overrides. -/
 theorem multi_order (t : Instr) (h : Hook) :
-    t.emit h = (if h.isStart then t.leaves else t.leaves.reverse).map (fun i => REv.hook i h) :=
+    t.emit h = recordedBy (if h.isStart then t.leaves else t.leaves.reverse) h :=
   emit_eq t h
 
-example : (Instr.multi [.leaf 0, .multi [.leaf 1, .leaf 2]]).emit (.stage .query false)
-    = [.hook 2 (.stage .query false), .hook 1 (.stage .query false), .hook 0 (.stage .query false)] := by decide
+example : (Instr.multi [.leaf 0 allKinds, .multi [.leaf 1 [9], .leaf 2 allKinds]]).emit (.field [] false)
+    = [.hook 2 (.field [] false), .hook 1 (.field [] false), .hook 0 (.field [] false)] := by decide
+/-- an end-only member is skipped by the start hook and reached by the end hook -/
+example : (Instr.multi [.leaf 0 allKinds, .leaf 1 [9]]).emit (.field [] true) = [.hook 0 (.field [] true)] := by decide
 
 /-- what the recording instrumentation `i` saw -/
 def seenBy (i : Nat) : List REv → List Hook
@@ -78,32 +96,79 @@ private theorem seenBy_append (i : Nat) (a b : List REv) : seenBy i (a ++ b) = s
     | hook j h => by_cases hj : j = i <;> simp [seenBy, hj, ih]
     | other e => simp [seenBy, ih]
 
-private theorem seenBy_map (i : Nat) (h : Hook) (l : List Nat) :
-    seenBy i (l.map (fun j => REv.hook j h)) = List.replicate (l.count i) h := by
-  induction l with
-  | nil => rfl
-  | cons j js ih =>
-    by_cases hj : j = i
-    · subst hj; simp [seenBy, ih, List.replicate_succ]
-    · have : (j == i) = false := by simp [hj]
-      simp [seenBy, hj, ih, List.count_cons, this]
+private theorem seenBy_absent (i : Nat) (h : Hook) : ∀ (l : List (Nat × List Nat)), (l.map (·.1)).count i = 0 →
+    seenBy i (recordedBy l h) = []
+  | [], _ => rfl
+  | (j, mj) :: l, hc => by
+    have hj : j ≠ i := by intro e; subst e; simp at hc
+    have hc' : (l.map (·.1)).count i = 0 := by
+      have : (j == i) = false := by simp [hj]
+      simpa [List.count_cons, this] using hc
+    have ih := seenBy_absent i h l hc'
+    simp only [recordedBy] at ih ⊢
+    cases hs : sees mj h <;> simp [List.filter_cons, hs, seenBy, hj, ih]
 
-/-- Every recording instrumentation that occurs once in a stack sees exactly the hook sequence
-    a single instrumentation would see: stacking neither drops, duplicates nor reorders the
-    hooks of one member. (So `stages_nested` and `field_hooks_once` hold per member.) -/
-theorem multi_member_sees_all (t : Instr) (i : Nat) (hi : t.leaves.count i = 1) (tr : List Ev) :
-    seenBy i (expand t tr) = hooksOf tr := by
+private theorem seenBy_member (i : Nat) (m : List Nat) (h : Hook) : ∀ (l : List (Nat × List Nat)),
+    (l.map (·.1)).count i = 1 → (i, m) ∈ l →
+    seenBy i (recordedBy l h) = if sees m h then [h] else []
+  | [], hc, _ => by simp at hc
+  | (j, mj) :: l, hc, hm => by
+    by_cases hj : j = i
+    · subst hj
+      have hc' : (l.map (·.1)).count j = 0 := by simpa [List.count_cons] using hc
+      have hnot : (j, m) ∉ l := by
+        intro hin
+        have : j ∈ l.map (·.1) := List.mem_map_of_mem (f := (·.1)) hin
+        exact (List.count_eq_zero.1 hc') this
+      have hmj : mj = m := by
+        rcases List.mem_cons.1 hm with e | e
+        · exact (Prod.mk.inj e).2.symm
+        · exact absurd e hnot
+      subst hmj
+      have ih := seenBy_absent j h l hc'
+      simp only [recordedBy] at ih ⊢
+      cases hs : sees mj h <;> simp [List.filter_cons, hs, seenBy, ih]
+    · have hc' : (l.map (·.1)).count i = 1 := by
+        have : (j == i) = false := by simp [hj]
+        simpa [List.count_cons, this] using hc
+      have hm' : (i, m) ∈ l := by
+        rcases List.mem_cons.1 hm with e | e
+        · exact absurd (Prod.mk.inj e).1.symm hj
+        · exact e
+      have ih := seenBy_member i m h l hc' hm'
+      simp only [recordedBy] at ih ⊢
+      cases hs : sees mj h <;> simp [List.filter_cons, hs, seenBy, hj, ih]
+
+/-- **multi_member_sees_all** — every recording instrumentation that occurs once in a stack,
+    whatever subset `m` of the methods it overrides and whatever the other members override,
+    sees exactly the hook sequence it would see if it were passed directly: the hooks of the
+    single-instrumentation trace that go to a method it overrides, in the same order. Stacking
+    neither drops, duplicates nor reorders the hooks of one member. (So `stages_nested` and
+    `field_hooks_once` hold per member.) -/
+theorem multi_member_sees_all (t : Instr) (i : Nat) (m : List Nat)
+    (hi : (t.leaves.map (·.1)).count i = 1) (hm : (i, m) ∈ t.leaves) (tr : List Ev) :
+    seenBy i (expand t tr) = (hooksOf tr).filter (sees m) := by
   induction tr with
   | nil => rfl
   | cons e es ih =>
     cases e with
     | hook h =>
       simp only [expand, hooksOf, seenBy_append, ih, multi_order]
-      cases h.isStart <;> simp [← List.map_reverse, seenBy_map, hi, List.count_reverse]
+      have key : seenBy i (recordedBy (if h.isStart then t.leaves else t.leaves.reverse) h)
+          = if sees m h then [h] else [] := by
+        cases h.isStart
+        · exact seenBy_member i m h _ (by simp only [Bool.false_eq_true, if_false, List.map_reverse, List.count_reverse]; exact hi) (by simpa using hm)
+        · exact seenBy_member i m h _ hi hm
+      rw [key]
+      cases hs : sees m h <;> simp [List.filter_cons, hs]
     | _ => simp [expand, hooksOf, seenBy, ih]
 
-example : (Instr.multi [.leaf 0, .multi [.leaf 1, .leaf 2]]).leaves.count 1 = 1 := by decide
+/-- passed directly (no `MultiInstrumentation`), the same instance sees the same hooks -/
+theorem direct_sees (i : Nat) (m : List Nat) (tr : List Ev) :
+    seenBy i (expand (.leaf i m) tr) = (hooksOf tr).filter (sees m) :=
+  multi_member_sees_all (.leaf i m) i m (by simp [Instr.leaves]) (by simp [Instr.leaves]) tr
 
+example : ((Instr.multi [.leaf 0 allKinds, .multi [.leaf 1 [9], .leaf 2 [0, 8]]]).leaves.map (·.1)).count 1 = 1 := by decide
 
 /-! ## fields: the sequential executors -/
 
